@@ -12,7 +12,7 @@ def cred_facts(name, trust):
     if name == "-":
         return False, False, True
     suffix = name.split("_", 1)[1]
-    ok = suffix not in BAD_CHAIN and trust == "trust_root"
+    ok = suffix not in BAD_CHAIN and trust in ("trust_root", "trust_multi")
     return ok, suffix != "signkeymismatch", suffix != "enckeymismatch"
 
 
